@@ -37,7 +37,7 @@ def cleanup(tmp):
             pass
 
 
-def run_one(prop, diff, expect):
+def run_one(prop, diff, expect, benign=False):
     tmp = tempfile.mkdtemp(prefix="capy-mut-", dir="/tmp")
     evd = tempfile.mkdtemp(prefix="capy-mut-ev-", dir="/tmp")
     try:
@@ -50,6 +50,11 @@ def run_one(prop, diff, expect):
         env = dict(os.environ, CAPY_REPO=tmp, VERIF_EVIDENCE_DIR=evd, VERIF_REPLAY_DIR=os.path.join(evd, "replay"), VERIF_TIER="quick")
         r = subprocess.run([sys.executable, os.path.join(VERIF, "check"), prop, "--tier", "quick"], env=env, stdout=subprocess.PIPE, stderr=subprocess.STDOUT, text=True)
         out = r.stdout
+        if benign:
+            # behaviour-preserving rewrite: the rules must stay silent
+            if r.returncode == 0:
+                return "silent-ok", ""
+            return "false-alarm", "\n".join(l for l in out.splitlines() if "finding:" in l)[:600]
         hit = [l for l in out.splitlines() if "finding:" in l and expect in l]
         if r.returncode == 1 and hit:
             return "detected", hit[0].strip()[:300]
@@ -69,9 +74,9 @@ def run_mutants(prop):
         side = diff[:-5] + ".json"
         if os.path.exists(side):
             meta = json.load(open(side))
-        status, detail = run_one(prop, diff, meta.get("expect", ""))
+        status, detail = run_one(prop, diff, meta.get("expect", ""), bool(meta.get("benign")))
         results.append({"mutant": os.path.relpath(diff, VERIF), "expect": meta.get("expect"), "what": meta.get("what"), "status": status, "detail": detail})
         print("  mutant %-40s %s" % (os.path.basename(diff), status), flush=True)
-        if status != "detected":
+        if status not in ("detected", "silent-ok"):
             print("    " + detail.replace("\n", "\n    "))
     return results
